@@ -7,7 +7,19 @@ From Bignums Require Import BigQ.
 From Lekkersim Require Import Field Matrix Base Kernel.
 Import ListNotations.
 
-Inductive verdict := Agree | Differ | ModelUndefined | ImplError | BothReject.
+Inductive verdict := Agree | Differ | ModelUndefined | ImplError | BothReject | ModelSingular.
+(* ModelSingular: an inner system met by the model's schedule is EXACTLY singular (e.g. a closed lossless
+   cavity at resonance) while the implementation's floating-point inverse returned numbers: outside
+   "for which it is defined"; counted, never an alarm.  Every other disagreement about definedness is. *)
+Definition undef (e : err) : verdict := match e with ESingular => ModelSingular | _ => ModelUndefined end.
+Definition worst (vs : list verdict) : verdict :=
+  if existsb (fun v => match v with Differ => true | _ => false end) vs then Differ
+  else if existsb (fun v => match v with ImplError => true | _ => false end) vs then ImplError
+  else if existsb (fun v => match v with ModelUndefined => true | _ => false end) vs then ModelUndefined
+  else if existsb (fun v => match v with ModelSingular => true | _ => false end) vs then ModelSingular
+  else if forallb (fun v => match v with BothReject => true | _ => false end) vs && negb (Nat.eqb (List.length vs) 0)
+       then BothReject
+  else Agree.
 
 Definition is_agree (v : verdict) : bool :=
   match v with Agree | BothReject => true | _ => false end.
@@ -82,7 +94,7 @@ Definition add_verdict (c : add_case) : verdict :=
   | Err EDim, Raised => BothReject
   | Err EDim, Obs _ => Differ
   | Err _, Raised => BothReject
-  | Err _, Obs _ => ModelUndefined
+  | Err e, Obs _ => undef e
   | Ok _, Raised => ImplError
   end.
 
@@ -103,12 +115,10 @@ Definition ic_verdict (c : ic_case) : verdict :=
         | Ok (uo, do_) =>
             if vec_close tol9 (sM (fst AB)) uo (fst o) && vec_close tol9 (sM (fst AB)) do_ (snd o)
             then Agree else Differ
-        | Err _ => ModelUndefined
+        | Err e => undef e
         end in
       let vs := map (fun p => one (fst p) (snd p)) (combine (combine As Bs) os) in
-      if forallb is_agree vs then Agree
-      else if existsb (fun v => match v with Differ => true | _ => false end) vs then Differ
-      else ModelUndefined
+      worst vs
   end.
 
 (* ---- netlists (C01, C02, C03, C08, ...) ---- *)
@@ -146,7 +156,7 @@ Definition net_verdict (c : net_case) : verdict :=
       else Differ
   | Ok _, Raised => ImplError
   | Err _, Raised => BothReject
-  | Err _, Obs _ => ModelUndefined
+  | Err e, Obs _ => undef e
   end.
 
 (* ---- C08: energy / reciprocity checks on the observed matrix itself ---- *)
@@ -212,7 +222,7 @@ Definition obs_verdict (r : result (lst BQCf)) (ex : list spin) (o : obs lmx) : 
       else Differ
   | Ok _, Raised => ImplError
   | Err _, Raised => BothReject
-  | Err _, Obs _ => ModelUndefined
+  | Err e, Obs _ => undef e
   end.
 
 (* the nested model against the observation *)
@@ -231,6 +241,8 @@ Definition hier_both_verdict (c : hier_case) : verdict :=
   | BothReject, BothReject => BothReject
   | Differ, _ | _, Differ => Differ
   | ImplError, _ | _, ImplError => ImplError
+  | ModelUndefined, _ | _, ModelUndefined => ModelUndefined
+  | ModelSingular, _ | _, ModelSingular => ModelSingular
   | _, _ => ModelUndefined
   end.
 
@@ -329,7 +341,7 @@ Definition solve_close (mats : list (nat * lmx)) (s : wstate) (o : ostate) : ver
       | Ok T => if forallb (fun p => mem p (l_pins T)) (expo net) then
                   if expo_close tol9 T (expo net) m then Agree else Differ
                 else Differ
-      | Err _ => ModelUndefined
+      | Err e => undef e
       end
   end.
 
@@ -474,10 +486,7 @@ Definition split_verdict (c : split_case) : verdict :=
          forallb (fun p => existsb (fun S => same_set S (fst p)) sets) parts
       then
         let vs := map (fun p => net_verdict (sub_case c (fst p) (snd p))) parts in
-        if forallb is_agree vs then Agree
-        else if existsb (fun v => match v with Differ => true | _ => false end) vs then Differ
-        else if existsb (fun v => match v with ImplError => true | _ => false end) vs then ImplError
-        else ModelUndefined
+        worst vs
       else Differ
   end.
 
@@ -641,7 +650,7 @@ Definition mon_verdict (c : mon_case) : verdict :=
   | Ok _, _, _ => ImplError
   | Err _, Raised, _ => BothReject
   | Err _, _, Raised => BothReject
-  | Err _, _, _ => ModelUndefined
+  | Err e, _, _ => undef e
   end.
 
 (* ---- C15: read-out helpers ---- *)
